@@ -1322,6 +1322,19 @@ class H2Stream:
             self._expected_content_length = 0
             return
 
+        # Some responses never have a body, whatever their Content-Length
+        # says (RFC 7230 Section 3.3.2): for 204 and 304 any body is an error,
+        # and an interim 1xx response says nothing about the body of the
+        # final response.
+        for n, v in headers:
+            if n == b':status':
+                if v.startswith(b'1'):
+                    return
+                if v in (b'204', b'304'):
+                    self._expected_content_length = 0
+                    return
+                break
+
         for n, v in headers:
             if n == b'content-length':
                 try:
